@@ -32,6 +32,7 @@
 #include <sys/mman.h>
 #include <sys/stat.h>
 #include <sys/wait.h>
+#include <execinfo.h>
 #include <sanitizer/asan_interface.h>
 #include <sanitizer/common_interface_defs.h>
 
@@ -78,6 +79,10 @@ xs_load(void)
 	const Elf64_Shdr *sh;
 
 	dl_iterate_phdr(xs_phdr_cb, NULL);
+	{
+		void *warm[4];
+		(void)backtrace(warm, 4);	/* loads the unwinder now, not inside an error report */
+	}
 	if (fd < 0 || fstat(fd, &st) < 0) {
 		return;
 	}
@@ -510,8 +515,21 @@ __asan_on_error(void)
 	} else {
 		snprintf(kind, sizeof(kind), "asan: %.80s", d ? d : "?");
 	}
-	/* the pc is inside libasan; the frame above would be the caller, which the fast unwinder does not give us here */
-	xr_add(kind, (uintptr_t)__asan_get_report_pc());
+	/* the pc is inside libasan's interceptor: name the first frame above it that belongs to this executable */
+	{
+		void *bt[32];
+		int nbt = backtrace(bt, 32);
+		uintptr_t pc = (uintptr_t)__asan_get_report_pc();
+		for (int i = 1; i < nbt; i++) {
+			char nm[48];
+			xs_name((uintptr_t)bt[i] - 1U, nm, sizeof(nm));
+			if (strcmp(nm, "libc-or-libasan") && strncmp(nm, "__asan", 6) && strncmp(nm, "xr_", 3)) {
+				pc = (uintptr_t)bt[i] - 1U;
+				break;
+			}
+		}
+		xr_add(kind, pc);
+	}
 }
 
 /* ---------- guard: signals and the watchdog unwind to the case loop ---------- */
@@ -1017,5 +1035,52 @@ static const char *const xc_specs[] = {
 	"%db", "%dB", "%jb", "%%", "%t", "%n", "%", "%_", "%O", "%x", "%-d", "%_d", "% d", "%0d", "%-m", "%-H", "%-dth", "%-j", "x",
 };
 #define XC_NSPECS	((uint64_t)(sizeof(xc_specs) / sizeof(*xc_specs)))
+
+/* ---------- duration lists (mode M of c10_io.c, the dadd/dround/dseq parts of c10_tools.c) ----------
+ * A list has N elements, N = 0..XD_MAXN(tier); element i of pattern P: P < 9: the unit P throughout;
+ * P == 9: the nine units in rotation; P == 10: the co-class forms in rotation; P == 11: units and co-class
+ * forms in rotation.  Sign variant 0: every element +, 1: + and - alternating -- not for the patterns with co-class forms: those carry
+ * no sign, and inside one string a sign holds until the next one, so the concatenated form would be ambiguous. */
+static const char *const xd_units[] = {"1d", "2b", "1w", "1mo", "1y", "3h", "4m", "5s", "6rs"};
+static const char *const xd_cocl[] = {"/1h", "/15m", "/30s", "/1d"};
+#define XD_NUNITS	9
+#define XD_NCOCL	4
+#define XD_NPAT	12
+#define XD_MAXN(thorough)	((thorough) ? 70 : 40)
+
+/* element I of the list; returns its length */
+static size_t
+xd_elem(int pat, int signvar, int i, char *buf, size_t bsz)
+{
+	const char *e;
+	int cocl = 0;
+	if (pat < XD_NUNITS) {
+		e = xd_units[pat];
+	} else if (pat == 9) {
+		e = xd_units[i % XD_NUNITS];
+	} else if (pat == 10) {
+		e = xd_cocl[i % XD_NCOCL];
+		cocl = 1;
+	} else {
+		int k = i % (XD_NUNITS + XD_NCOCL);
+		cocl = k >= XD_NUNITS;
+		e = cocl ? xd_cocl[k - XD_NUNITS] : xd_units[k];
+	}
+	return (size_t)snprintf(buf, bsz, "%s%s", cocl ? "" : (signvar && (i & 1)) ? "-" : "+", e);
+}
+/* the whole list as one string, elements joined by SEP ("" or " ") */
+static size_t
+xd_join(int pat, int signvar, int n, const char *sep, char *buf, size_t bsz)
+{
+	size_t k = 0;
+	buf[0] = '\0';
+	for (int i = 0; i < n && k + 16 < bsz; i++) {
+		if (i) {
+			k += (size_t)snprintf(buf + k, bsz - k, "%s", sep);
+		}
+		k += xd_elem(pat, signvar, i, buf + k, bsz - k);
+	}
+	return k;
+}
 
 #endif	/* VERIF_C10_COMMON_H */
